@@ -14,7 +14,7 @@ import (
 	"verif/h/world"
 )
 
-var c02Behaviours = []string{"good", "revoked", "unknown", "http500", "refused", "html", "ldap", "https-good"}
+var c02Behaviours = []string{"good", "revoked", "unknown", "http500", "refused", "html", "ldap", "https-good", "forged-good"}
 
 type c02Case struct {
 	List     []int // behaviour index per responder position
@@ -111,6 +111,10 @@ func (k *c02Cast) leaf(c c02Case) (*world.Ident, *world.Ident) {
 	return l, ca
 }
 
+func (k *c02Cast) unauthorised(ca *world.Ident) *world.Ident {
+	return world.Issue(ca, world.CertOpt{CN: "c02 not a responder", Serial: big.NewInt(778), KeyKind: "ec", KeyIdx: 7})
+}
+
 func (k *c02Cast) run(c c02Case) (v1, v2 Verdict, hits1, hits2 int) {
 	leaf, ca := k.leaf(c)
 	chain := world.Chain(leaf, ca, k.p.Root)
@@ -138,6 +142,11 @@ func (k *c02Cast) run(c c02Case) (v1, v2 Verdict, hits1, hits2 int) {
 				w.Net.Down(url)
 			case "html":
 				w.Net.Serve(url, "html", []byte("<html><body>It works!</body></html>"))
+			case "forged-good":
+				// a well-formed "good" for this serial, signed by a certificate the CA issued WITHOUT OCSP-signing authorisation
+				ans.Status = xocsp.Good
+				ans.Signer, ans.EmbedCert = k.unauthorised(ca), true
+				w.Net.Serve(url, "forged-good", world.BuildOCSP(ans))
 			case "ldap":
 				w.Net.Serve(url, "ldap", []byte("should never be asked"))
 			}
@@ -268,7 +277,7 @@ func RunC02(tier string, args []string) int {
 	cov := fw.Coverage{
 		"evaluations":         evals,
 		"distinct_nontrivial": nontrivial,
-		"rule":                "all responder lists of length 0..3 over 8 behaviours (585 lists) x aia_strict(2) x default cache duration {0,10m} x nextUpdate {absent,+1h} (thorough) x chain shape (2 quick / 4 thorough); each case is a 2-event history on a fresh checker: lookup, all responders down, lookup. Non-trivial = at least one responder named.",
+		"rule":                "all responder lists of length 0..3 over 9 behaviours (820 lists) x aia_strict(2) x default cache duration {0,10m} x nextUpdate {absent,+1h} (thorough) x chain shape (2 quick / 4 thorough); each case is a 2-event history on a fresh checker: lookup, all responders down, lookup. Non-trivial = at least one responder named.",
 		"samples":             samples,
 		"outcome_classes":     outcomes.Counts(),
 		"exhaustive":          true,
